@@ -25,11 +25,22 @@ fn main() {
     let root = std::env::var("VERIF_ROOT").unwrap_or_else(|_| "/verif".into());
     match args[1].as_str() {
         "list" => {
-            for p in vh::props::all() {
-                println!("{}", p.id());
+            for p in vh::props::IDS {
+                println!("{}", p);
             }
         }
         "config" => println!("{}", config_name()),
+        "selftest" => {
+            let errs = vh::selftest::run();
+            for e in &errs {
+                eprintln!("selftest: {e}");
+            }
+            if errs.is_empty() {
+                println!("selftest ok");
+            } else {
+                std::process::exit(2);
+            }
+        }
         "run" => {
             let id = args.get(2).expect("property id");
             let Some(p) = vh::props::by_id(id) else {
@@ -52,7 +63,37 @@ fn main() {
                 scale: arg(&args, "--scale").and_then(|s| s.parse().ok()).unwrap_or(1.0),
                 only_class: arg(&args, "--class"),
             };
-            let res = p.run(&cfg);
+            let mut res = p.run(&cfg);
+            // replay tier: every saved case of this property is re-executed in this configuration
+            let mut replayed = 0u64;
+            if cfg.only_class.is_none() {
+                let dir = format!("{root}/replays/{id}");
+                let mut files: Vec<_> = std::fs::read_dir(&dir).map(|d| d.filter_map(|e| e.ok()).map(|e| e.path()).collect()).unwrap_or_default();
+                files.sort();
+                for f in files {
+                    if f.extension().and_then(|x| x.to_str()) != Some("json") { continue; }
+                    let Ok(txt) = std::fs::read_to_string(&f) else { continue };
+                    let Ok(v) = serde_json::from_str::<Value>(&txt) else { continue };
+                    if v["property"].as_str() != Some(id.as_str()) { continue; }
+                    match p.replay(&v) {
+                        Ok(o) => {
+                            replayed += 1;
+                            if let Verdict::Fail { sig, msg } = o.verdict {
+                                if let Some(k) = cfg.known.iter().find(|k| &k.property == id && k.status == "known" && k.signature == sig) {
+                                    let a = res["known_findings_hit"].as_array_mut().unwrap();
+                                    if !a.iter().any(|x| x["signature"].as_str() == Some(sig.as_str())) {
+                                        a.push(serde_json::json!({"signature": sig, "count": 1, "what": k.what}));
+                                    }
+                                } else {
+                                    res["violations"].as_array_mut().unwrap().push(serde_json::json!({"signature": sig, "message": msg, "replay": f.to_string_lossy(), "class": "replay", "config": cfg.config_name}));
+                                }
+                            }
+                        }
+                        Err(e) => eprintln!("replay file {} not usable: {e}", f.display()),
+                    }
+                }
+            }
+            res["replayed_saved_cases"] = serde_json::json!(replayed);
             let txt = serde_json::to_string_pretty(&res).unwrap();
             if let Some(out) = arg(&args, "--out") {
                 std::fs::write(&out, &txt).expect("write result");
